@@ -2,6 +2,7 @@ package checks
 
 import (
 	"fmt"
+	"reflect"
 	"strings"
 
 	"github.com/antonmedv/expr"
@@ -36,6 +37,15 @@ var c07Templates = []string{
 	`[1..N, 1..N, 1..N, 1..N]`,
 	`NilIt.Name`,
 	`S matches BadRe`,
+	// results that keep hold of what the VM handed to an environment function
+	`Tuple(A, B, N)`, `Tuple(N)`, `[Tuple(1, 2), Tuple(A)]`, `Tuple(Tuple(A, 2), B, S)`, `map(1..3, {Tuple(#, A)})`, `Fast(A, B)`, `FnVar(A, B, N)`,
+}
+
+type c07Kept struct {
+	step  int
+	src   string
+	val   interface{}
+	canon string
 }
 
 type c07Prog struct {
@@ -165,6 +175,7 @@ func c07History(c *runner.Ctx, idx uint64) {
 	})
 	okRuns, failRuns := 0, 0
 	cumAlloc := 0
+	var kept []c07Kept
 	var hist []string
 	for si, pi := range steps {
 		pr := pool[pi]
@@ -197,6 +208,23 @@ func c07History(c *runner.Ctx, idx uint64) {
 		}
 		if len(hist) < 40 {
 			hist = append(hist, fmt.Sprintf("%d:%s", pi, outcomeKey(o1)))
+		}
+		// a value returned by an earlier run stays what it was, whatever the
+		// VM does afterwards
+		for _, k := range kept {
+			if now := mon.Canon(k.val); now != k.canon {
+				c.Violate("earlier-result-modified", fmt.Sprintf("the result of step %d (%s) read %s when it was returned and reads %s after step %d", k.step, clip(k.src, 80), clip(k.canon, 200), clip(now, 200), si),
+					map[string]interface{}{"programs": poolSources(pool), "step": si, "earlier_step": k.step, "program": pr.src, "earlier_program": k.src, "budget": budget, "history_prefix": hist, "optimize": optimize})
+				kept = nil
+				break
+			}
+		}
+		if !o1.Failed() && o1.Val != nil && len(kept) < 8 {
+			switch reflect.TypeOf(o1.Val).Kind() {
+			case reflect.Slice, reflect.Map, reflect.Ptr:
+				kept = append(kept, c07Kept{si, pr.src, o1.Val, mon.Canon(o1.Val)})
+				c.Count("results_kept_and_rechecked", 1)
+			}
 		}
 		same := o1.Failed() == o2.Failed() && calls1 == calls2
 		if same && !o1.Failed() {
